@@ -224,6 +224,30 @@ func runC12(c *kit.Ctx) {
 					onErr = true
 				}
 			}
+			// what is appended is exactly the call whose result was just received
+			one := false
+			if sl, ok := call.Common().Args[1].(*ssa.Slice); ok {
+				if arr, ok := sl.X.(*ssa.Alloc); ok {
+					var elems []ssa.Value
+					for _, r := range kit.Referrers(arr) {
+						if ia, ok := r.(*ssa.IndexAddr); ok {
+							for _, rr := range kit.Referrers(ia) {
+								if st, ok := rr.(*ssa.Store); ok && st.Addr == ssa.Value(ia) {
+									elems = append(elems, st.Val)
+								}
+							}
+						}
+					}
+					if len(elems) == 1 {
+						for _, st := range selectArmsAt(call.Block()) {
+							if rc, ok := kit.Root(st.Chan).(*ssa.Call); ok && kit.CalleeName(rc) == hrpcCall+"ResultChan" && kit.Same(kit.Root(rc.Call.Value), kit.Root(elems[0])) {
+								one = true
+							}
+						}
+					}
+				}
+			}
+			c.Check(one, wfc, "retry-the-received-call", call.Pos(), "the one call appended is the call whose result was received in this select arm", "the retry list grows by something other than the single call whose failed result was just received: calls whose outcome is not known yet (or that succeeded) are executed again")
 			c.Check(okClass && onErr, wfc, "retry-only-class", call.Pos(), "appended to the retry list inside a retryable-class case on the error edge", "a call can be put on the retry list without having failed with a retryable class: a call whose success was received (or that failed for good) is executed again")
 		}
 		_ = retrySlice
@@ -286,8 +310,17 @@ func runC12(c *kit.Ctx) {
 		c.Check(good, sb, "next-round-from-retry-list", sb.Pos(), "the next round's batch is the list of calls waitForCompletion reported as retryable", "the next round's batch is fed from something other than waitForCompletion's retry list")
 	}
 
+	// ---- R4 ---------------------------------------------------------------
+	c.StartRule("R4", "the region a call is grouped under owns its key (lookup validators, shared with C01.R3)", 4)
+	if grc, ml := c.Anchor("", "client", "getRegionFromCache"), c.Anchor("", "client", "metaLookup"); grc != nil && ml != nil {
+		lookupValidators(c, grc, ml)
+	}
+
 	// ---- R3 ---------------------------------------------------------------
 	c.StartRule("R3", "per-region order is preserved", 4)
+	if mtp := c.Anchor("region", "multi", "toProto"); mtp != nil {
+		cellblocksInActionOrder(c, mtp)
+	}
 	{
 		// findClients: rpcByClient[rc] = append(rpcByClient[rc], rpc) with rpc the range element
 		good := false
